@@ -54,14 +54,45 @@ func vh_C19_recvVersion_structured() {
 	vEmit("err", err != nil)
 }
 
-// arbitrary handshake bytes: no panic; success implies type VERSION and version 3
+// reference: a VERSION body after the version word is a sequence of complete
+// (name, data) string pairs that ends exactly at the end of the body
+func vRefPairsOK(b []byte) bool {
+	for len(b) > 0 {
+		for k := 0; k < 2; k++ {
+			if len(b) < 4 {
+				return false
+			}
+			n := int(vBE32(b))
+			if n < 0 || n > len(b)-4 {
+				return false
+			}
+			b = b[4+n:]
+		}
+	}
+	return true
+}
+
+// arbitrary handshake bytes: no panic; a session exactly for a complete,
+// well-formed VERSION packet announcing version 3 (a body cut inside an
+// extension pair is malformed even when the frame length is consistent; added
+// after seeded change C19-e)
 func vh_C19_recvVersion_bytes() {
 	data := vNondetBytesC(20)
 	vConsumed(len(data))
 	c, _ := vNewHandshakeClient(data)
 	err := c.recvVersion()
+	wellFormed := false
+	if len(data) >= 9 {
+		l := int(vBE32(data))
+		if l >= 5 && l <= len(data)-4 && data[4] == sshFxpVersion && data[5] == 0 && data[6] == 0 && data[7] == 0 && data[8] == 3 {
+			wellFormed = vRefPairsOK(data[9 : 4+l])
+		}
+	}
 	if err == nil {
 		vAssert(len(data) >= 9 && data[4] == sshFxpVersion && data[5] == 0 && data[6] == 0 && data[7] == 0 && data[8] == 3, "session only with a VERSION packet announcing version 3")
+		vAssert(wellFormed, "session only if the extension list is complete and well-formed")
+	} else {
+		vAssert(!wellFormed, "a complete, well-formed version-3 reply is accepted")
 	}
 	vEmit("err", err != nil)
 }
